@@ -61,6 +61,10 @@ pub enum HStep {
     /// Sleep until the request's deadline plus this offset (ms).
     UntilDeadline(i64),
     Never,
+    /// The handler itself drives a small tarpc server inline (a gateway that serves a backend
+    /// connection from inside a request): a JSON peer sends that server one request without a
+    /// deadline, and what the inner channel hands out is logged.
+    InnerNoDeadline,
 }
 
 #[derive(Clone, Debug, Serialize, Deserialize, PartialEq)]
@@ -98,6 +102,11 @@ pub struct ServerScn {
     /// ‰ of scheduling steps that poll a task that was not woken (legal for any future).
     #[serde(default)]
     pub spurious_permille: u32,
+    /// With a limit: the application first takes this many requests from the bare channel by
+    /// hand (and keeps them), and only then wraps the channel in the limiter — so the limiter
+    /// starts on a channel that may already hold more than L requests.
+    #[serde(default)]
+    pub pre_read: u8,
     /// Clock jumps: at virtual ms `.0` the clock is advanced by `.1` ms at once.
     #[serde(default)]
     pub jumps: Vec<(u64, u64)>,
@@ -176,6 +185,7 @@ fn gen_parked(rng: &mut Rng) -> ServerScn {
         long: false,
         spurious_permille: 0,
         jumps: vec![],
+        pre_read: 0,
     }
 }
 
@@ -206,6 +216,7 @@ fn gen_flood(rng: &mut Rng) -> ServerScn {
         long: false,
         spurious_permille: 0,
         jumps: vec![],
+        pre_read: 0,
     }
 }
 
@@ -215,6 +226,9 @@ pub fn gen(rng: &mut Rng, focus: SFocus) -> ServerScn {
     }
     if focus == SFocus::Limit && rng.chance(40) {
         return gen_flood(rng);
+    }
+    if focus == SFocus::Limit && rng.chance(40) {
+        return gen_prebusy(rng);
     }
     let n = rng.range(1, if focus == SFocus::Limit { 8 } else { 6 }) as usize;
     let small = [1usize, 2, 3];
@@ -319,6 +333,9 @@ pub fn gen(rng: &mut Rng, focus: SFocus) -> ServerScn {
                 _ => steps.push(HStep::Never),
             },
         }
+        if matches!(focus, SFocus::General | SFocus::Deadlines) && rng.chance(40) {
+            steps.insert(0, HStep::InnerNoDeadline);
+        }
         let run = if rng.chance(80) {
             RunMode::DropUnrun
         } else if rng.chance(80) {
@@ -419,6 +436,45 @@ pub fn gen(rng: &mut Rng, focus: SFocus) -> ServerScn {
         } else {
             vec![]
         },
+        pre_read: 0,
+    }
+}
+
+/// The limiter put on a channel that is already busy: the application has taken more than L
+/// requests from the bare channel by hand before wrapping it.
+fn gen_prebusy(rng: &mut Rng) -> ServerScn {
+    let limit = *rng.pick(&[0usize, 1, 1, 2]);
+    let pre = limit + rng.range(1, 2) as usize;
+    let mut script = Vec::new();
+    let mut handlers = Vec::new();
+    for _ in 0..pre {
+        script.push(PeerAct { delay_ms: 0, kind: PeerKind::Req { id: IdRef::Fresh, deadline: Dl::Ms(*rng.pick(&[30i64, 60])), sampled: false, untraced: false } });
+        handlers.push(HandlerPlan { steps: vec![HStep::Never], err: false, run: RunMode::Execute });
+    }
+    for _ in 0..rng.range(2, 6) {
+        script.push(PeerAct { delay_ms: rng.range(0, 3), kind: PeerKind::Req { id: IdRef::Fresh, deadline: Dl::Ms(1000), sampled: false, untraced: false } });
+        let steps = match rng.below(3) {
+            0 => vec![],
+            1 => vec![HStep::SleepMs(rng.range(1, 10))],
+            _ => vec![HStep::Never],
+        };
+        handlers.push(HandlerPlan { steps, err: false, run: RunMode::Execute });
+    }
+    ServerScn {
+        resp_buf: 100,
+        limit: Some(limit),
+        link: LinkCfg { cap: 0, coupled: true, sticky: true, faults: vec![] },
+        stalls: vec![],
+        script,
+        handlers,
+        eof_at_end: true,
+        drop_stream_at: None,
+        preempt_permille: 0,
+        subscriber: 0,
+        long: false,
+        spurious_permille: 0,
+        jumps: vec![],
+        pre_read: pre as u8,
     }
 }
 
@@ -540,6 +596,35 @@ impl Serve for ScriptedServe {
                 }
                 HStep::Never => {
                     futures::future::pending::<()>().await;
+                }
+                HStep::InnerNoDeadline => {
+                    use futures::StreamExt;
+                    let (a, b) = crate::pipe::pipe(crate::pipe::PipeCfg::default());
+                    let t = tarpc::serde_transport::new::<crate::pipe::End, ClientMessage<u64>, Response<u64>, tokio_serde::formats::Json<ClientMessage<u64>, Response<u64>>>(
+                        tokio_util::codec::Framed::new(b, tokio_util::codec::LengthDelimitedCodec::new()),
+                        tokio_serde::formats::Json::default(),
+                    );
+                    let mut inner = Box::pin(BaseChannel::with_defaults(t).requests());
+                    let tc = serde_json::to_value(ctx.trace_context).unwrap();
+                    let req = serde_json::json!({"Request": {"context": {"trace_context": tc}, "id": 1, "message": 5}});
+                    let payload = serde_json::to_vec(&req).unwrap();
+                    let mut f = (payload.len() as u32).to_be_bytes().to_vec();
+                    f.extend_from_slice(&payload);
+                    crate::pipe::inject(&a.wr, &f);
+                    let t_dec = sim.now_ms();
+                    match inner.next().await {
+                        Some(Ok(r)) => {
+                            let d = sim.ms_of_local(r.get().context.deadline);
+                            sim.log(EvKind::Note { what: "inner_default_deadline", a: d - t_dec, b: sim.now_ms() - t_dec });
+                        }
+                        _ => {
+                            sim.log(EvKind::Note { what: "inner_default_deadline", a: -1, b: -1 });
+                        }
+                    }
+                    sim.count("probe.server_driven_inside_a_handler");
+                    drop(inner);
+                    drop(a);
+                    sim.log(EvKind::HandlerPoll { node: self.node, id: self.id, inc });
                 }
             }
         }
@@ -806,6 +891,44 @@ pub fn run(scn: &ServerScn, tape: Tape, _logging: bool) -> RunOutput {
                 hp.get(tag as usize).cloned().unwrap_or(HandlerPlan { steps: vec![], err: false, run: RunMode::Execute })
             });
             let server = match scn.limit {
+                Some(l) if scn.pre_read > 0 => {
+                    let (sim_s, mon_s, shared_s, pre) = (sim.clone(), mon.clone(), shared.clone(), scn.pre_read as usize);
+                    sim.spawn("server", async move {
+                        // the application takes requests from the bare channel by hand, keeps
+                        // them, and only then puts the limiter on
+                        let mut base = base;
+                        let mut held = Vec::new();
+                        while held.len() < pre {
+                            let item = poll_fn(|cx| {
+                                mon_s(true, false);
+                                let r = Pin::new(&mut base).poll_next(cx);
+                                mon_s(false, r.is_pending());
+                                r
+                            })
+                            .await;
+                            match item {
+                                Some(Ok(tr)) => {
+                                    let r = &tr.request;
+                                    sim_s.log(EvKind::Yielded {
+                                        node: 0,
+                                        id: r.id,
+                                        tag: r.message,
+                                        deadline_ms: sim_s.ms_of_local(r.context.deadline),
+                                        trace: u128::from(r.context.trace_context.trace_id),
+                                        span: u64::from(r.context.trace_context.span_id),
+                                        sampled: r.context.trace_context.sampling_decision == trace::SamplingDecision::Sampled,
+                                    });
+                                    sim_s.count("probe.request_taken_from_bare_channel");
+                                    held.push(tr);
+                                }
+                                _ => break,
+                            }
+                        }
+                        sim_s.log(EvKind::Note { what: "limiter_on", a: held.len() as i64, b: l as i64 });
+                        server_task_limited(sim_s, 0, base.max_concurrent_requests(l), mon_s, plans, shared_s).await;
+                        drop(held);
+                    })
+                }
                 Some(l) => sim.spawn("server", server_task_limited(sim.clone(), 0, base.max_concurrent_requests(l), mon, plans, shared.clone())),
                 None => sim.spawn("server", server_task(sim.clone(), 0, base, mon, plans, shared.clone())),
             };
@@ -1557,12 +1680,18 @@ pub fn check(scn: &ServerScn, log: &[Ev], sim: &Sim, node: u8) -> Vec<Violation>
     }
 
     // ---- C12: throttling against the interval model
+    let limiter_on = log.iter().find(|e| matches!(e.kind, EvKind::Note { what: "limiter_on", .. })).map(|e| e.seq);
     if let Some(l) = limit {
         for (ix, i) in m.incs.iter().enumerate() {
             if i.tag == u64::MAX || m.unclean.contains(&i.id) {
                 continue;
             }
             if let Some(y) = i.yielded {
+                // requests the application took from the bare channel before it put the limiter
+                // on were not handed out by the limiter
+                if limiter_on.map(|s| y < s).unwrap_or(false) {
+                    continue;
+                }
                 let lo = m.incs.iter().enumerate().filter(|(j, o)| *j != ix && o.tag != u64::MAX && m.definitely(o, y)).count();
                 if lo >= l {
                     v.push(viol("C12", "over-admit", &[], format!("request tag {} handed to the application at seq {y} while {lo} >= limit {l} requests were in flight", i.tag)));
@@ -1710,6 +1839,16 @@ pub fn check(scn: &ServerScn, log: &[Ev], sim: &Sim, node: u8) -> Vec<Violation>
                     v.push(viol("C10", "server-no-end", &[], format!("inbound side ended at seq {r}, nothing in flight at idle seq {iseq}, but the request stream has not ended")));
                     break;
                 }
+            }
+        }
+    }
+
+    // ---- C07: a request that omits its deadline gets decode time + 10 s, wherever the server
+    // that decodes it happens to be driven from
+    for e in log {
+        if let EvKind::Note { what: "inner_default_deadline", a, b } = &e.kind {
+            if *a != 10_000 + *b && *a != 10_000 {
+                v.push(viol("C07", "default", &["json", "inner-server"], format!("a request without a deadline, decoded by a server driven from inside a handler, got a deadline {a} ms away (expected 10000)")));
             }
         }
     }
